@@ -21,7 +21,7 @@ def c2(ctx):
 
 
 def c5(ctx):
-    timing.beatvalues_codec(ctx)
+    timing.beatvalues_codec(ctx, judge_source=False)
 
 
 CLAUSES = [
